@@ -25,7 +25,7 @@ CONSTANTS IB, PB, NF,
           OpPages,     \* pages map / unmap are applied to
           IdPages,     \* start pages of identity mappings (the frame number is the page number)
           Leafs,       \* frame numbers used as mapping targets (never dereferenced)
-          FlagSets,    \* flag-bit sets callers pass (each contains 0 = present)
+          FlagSets,    \* flag-bit sets callers pass (with and without 0 = present)
           Sizes,       \* region sizes in bytes
           FailPoints,  \* 0 = the allocator never fails; k = its k-th call during the operation fails
           OpKinds, MaxOps, Bug, Emit, Props
@@ -100,7 +100,8 @@ MapWalk(st, rt, tblVA, pg, lvl, leaf, fls) ==
   IN IF ~loc.ok THEN [st EXCEPT !.err = "FAULT"]
      ELSE LET e == st.m[loc.f][loc.j] IN
        IF lvl = 4
-       THEN [st EXCEPT !.m[loc.f][loc.j] = [f |-> leaf, fl |-> IF Bug = "StaleBitsOnRemap" THEN e.fl \cup fls ELSE fls],
+       THEN [st EXCEPT !.m[loc.f][loc.j] = [f |-> leaf, fl |-> IF Bug = "StaleBitsOnRemap" THEN e.fl \cup fls
+                                                           ELSE IF Bug = "LeafForcedPresent" THEN fls \cup {0} ELSE fls],
                        !.flush = IF Bug = "NoFlushOnMap" THEN @ ELSE Append(@, pg)]
        ELSE IF 7 \in e.fl THEN [st EXCEPT !.err = "EHUGE"]                  \* huge-page bit in an UPPER-level entry
        ELSE IF Present(e) THEN MapWalk(st, rt, ShiftVA(ea), pg, lvl + 1, leaf, fls)
